@@ -38,8 +38,11 @@ var (
 	blockHeight = devHeight
 	// top-level gas: below the code deposit of 24576 bytes (200 gas per byte, x30 under Proposal026), so that
 	// a CREATE returning that much can never pay for code storage
-	gasCap  = uint64(120000000)
-	costDiv = uint64(1) // the budget constants assume Proposal026 magnification; before it they are divided by 6 (value transfer and new-account gas are not magnified)
+	gasCap = uint64(120000000)
+	// without the creator nonce bump (Proposal006 on, Proposal007 off) every CREATE of one creator lands on the same
+	// address: the second one collides, and a collision takes all gas
+	createMayCollide = false
+	costDiv          = uint64(1) // the budget constants assume Proposal026 magnification; before it they are divided by 6 (value transfer and new-account gas are not magnified)
 )
 
 func boot() {
@@ -369,6 +372,7 @@ func setSchedule(c blockCfg) forkFlags {
 	}
 	common.SetBlockHeight(blockHeight)
 	f := readFlags()
+	createMayCollide = !f.cbn
 	gasCap, costDiv = 120000000, 1
 	if !f.p026 {
 		gasCap, costDiv = 4500000, 6 // 24576*200 = 4.9M is the code deposit that must stay unaffordable
@@ -412,8 +416,8 @@ func (h *harness) reset(blk *block) string {
 		if a.kind != "p" {
 			h.seen[addr] = true // precompiles are observed once the EVM touches them
 		}
-		if a.balance > 0 {
-			adb.AddBalance(addr, big.NewInt(int64(a.balance)))
+		if a.bal().Sign() > 0 {
+			adb.AddBalance(addr, a.bal())
 		}
 		switch a.kind {
 		case "h", "m":
@@ -572,7 +576,7 @@ func (h *harness) runTx(tx *txn) txResult {
 		logs []*types.Log
 		err  error
 	)
-	value := big.NewInt(int64(tx.value))
+	value := tx.val()
 	if tx.create {
 		if h.probe != nil {
 			h.probe.onPre(-1)
